@@ -19,7 +19,7 @@ ASSUMPTIONS = ['power / image tolerances 4e-2 (>= 6x the worst interpolation res
                'scale factors are drawn so that n*s is not within 1e-9 of an integer unless it is exactly one']
 PLAN = {'quick': {'gen': 8}, 'thorough': {'gen': 16, 'tests': 1, 'docs': 1}}
 REQUIRED_BUCKETS = ['s<1', 's>1', 's=1', 's:integer', 'shape:odd', 'shape:even', 'shape:nonsquare', 'monolithic', 'segmented',
-                    'resample', 'resample:refused', 'scalar-attributes', 'mask-dtype', 'amp:signed', 's:decimal-near-integer-product', 'subclass:property-override', 'opd:exact-zeros', 'array-dtype', 'pair:same-output-size', 'amp:node-on-samples', 'opd-only-plane']
+                    'resample', 'resample:refused', 'scalar-attributes', 'mask-dtype', 'amp:signed', 's:decimal-near-integer-product', 'subclass:property-override', 'opd:exact-zeros', 'array-dtype', 'pair:same-output-size', 'amp:node-on-samples', 'opd-only-plane', 'constant-amplitude-as-array']
 REQUIRED_ANCHORS = ['probe:Plane.rescale', 'anchor:Plane.resample', 'anchor:util.rescale', 'anchor:_plane_slice']
 REQUIRED_ORACLES = ['pixelscale/s', 'shape=ceil(n*s)', 'mask:binary+segments', 'original-untouched', 'identity', 'power',
                     'image', 'extent', 'resample=rescale', 'resample:refused']
@@ -428,6 +428,18 @@ def workload(ctx, lentil):
                 ctx.close('power', np.array([Pm1 * (s * s * area0 / max(area1, 1.0))]), np.array([Pm0]), 1e-9, 'rescale|power|scalar-amplitude',
                           'a plane with a constant amplitude over an array mask does not keep its transmitted power when rescaled',
                           dict(desc, a=a0, got=np.asarray(qm.amplitude).tolist(), P=[Pm0, Pm1], area=[area0, area1]), scale=Pm0)
+                # the same optics written with the constant as an ARRAY (np.full, a flat-field map): interpolating a constant is exact,
+                # so the rescaled plane passes the same field as the one with the scalar - up to the rim of the mask
+                pa_ = lentil.Pupil(amplitude=np.full(n, float(a0)), opd=0, mask=m2, pixelscale=dx, focal_length=z)
+                qa_ = pa_.rescale(s)
+                ctx.bucket('constant-amplitude-as-array')
+                with probe.quiet():
+                    f_s = np.asarray((lentil.Wavefront(wl) * qm).field)
+                    f_a = np.asarray((lentil.Wavefront(wl) * qa_).field)
+                ctx.close('power', f_a, f_s, 1e-9, 'rescale|constant-amplitude-array-vs-scalar',
+                          'a constant amplitude given as an array over an explicit mask is not rescaled like the same constant given as a scalar '
+                          '(its rim is damped)', dict(desc, a=a0, P=[float(np.sum(np.abs(f_s) ** 2)), float(np.sum(np.abs(f_a) ** 2))]),
+                          scale=float(np.max(np.abs(f_s))) + 1e-300)
             except Exception as e:
                 ctx.check(False, 'power', f'rescale|scalar-amplitude|raises={type(e).__name__}', str(e), desc)
             # a plane described by an OPD map alone (uniform illumination, no mask array - the map's own extent is the aperture):
